@@ -18,12 +18,12 @@ var (
 	ErrSendRequestFailed = errors.New("error sending request to target")
 )
 
-// Upstream requests are sent with a client that does not follow redirects: a 3xx answer of
-// the origin is relayed to the client like any other response.
-var upstreamClient = &http.Client{
-	CheckRedirect: func(req *http.Request, via []*http.Request) error {
-		return http.ErrUseLastResponse
-	},
+// Upstream requests go to the transport directly, not through an http.Client: a 3xx answer of the
+// origin is relayed to the client like any other response. A client handles redirects itself; even
+// when told not to follow them it closes the request body of a 301, 302 or 303 answer at once, and an
+// exchange whose request body is still being forwarded upstream then loses its upstream connection.
+func upstreamRoundTrip(req *http.Request) (*http.Response, error) {
+	return http.DefaultTransport.RoundTrip(req)
 }
 
 // consumedBody remembers that the client's request body has been read to its end.
@@ -122,7 +122,7 @@ func sendRequestToTarget(req *http.Request, httpsDefault bool) (*http.Response, 
 	}
 
 	slog.Debug("Sending request", "url", req.URL, "method", req.Method)
-	resp, err := upstreamClient.Do(req)
+	resp, err := upstreamRoundTrip(req)
 	if err != nil {
 		slog.Error("Error sending request to target", "url", req.URL, "error", err)
 		return nil, fmt.Errorf("%w: %v", ErrSendRequestFailed, err)
